@@ -39,6 +39,11 @@ CONSTANTS
                 \* (ContentException, CalledProcessError, TimeoutException, any other exception, SkipComponent)
     BackedSet,  \* subset of BOOLEAN: TRUE = the datasource implements a registry point (the spec is what is
                 \* persisted), FALSE = a stand-alone datasource (persisted under its own name)
+    FilterSet,  \* subset of BOOLEAN: TRUE = the spec is filterable and has a filter with a max-match budget; every
+                \* persisted line matches it and an element has at most Budget lines, so loading keeps them all
+    Budget,     \* the filter's max_match
+    BudgetMode, \* "per-load": every element is filtered against the full budget (specified) | "shared": what one
+                \* element used up is gone for the next (exists so that TLC can show that RoundTrip is able to fail)
     RecordMode, \* "component": a failure is filed under what is persisted (specified) | "points-only": only under
                 \* registry points (exists so that TLC can show that ErrorsPersisted is able to fail)
     MaxFaults,  \* at most this many corrupted entries
@@ -49,7 +54,8 @@ CONSTANTS
 
 AllKinds == {"text", "raw", "command", "cfile", "ccmd", "datasource"}
 CmdKinds == {"command", "ccmd"}               \* the kinds that carry a command and arguments (Reading, notes/C11.md)
-AllModes == {"deleted", "truncated", "nonjson", "unknown", "shape", "datagone"}
+AllModes == {"deleted", "truncated", "nonjson", "unknown", "shape", "datagone", "unopenable"}
+            \* unopenable: the entry cannot even be opened (a directory of that name, a dangling symlink)
 FailOutcomes == {"content", "cmd", "timeout", "crash"}        \* "failed"; "skip" is not a failure
 
 VARIABLES
@@ -94,7 +100,7 @@ LinesOK(orig, got) ==
 NoArgs      == [shape |-> "none", v |-> <<>>]
 Elem(ls, cmd, args) == [lines |-> ls, cmd |-> cmd, args |-> args]
 
-NoValue(o, b) == [kind |-> "none", multi |-> FALSE, failed |-> o \in FailOutcomes, outcome |-> o, backed |-> b,
+NoValue(o, b) == [kind |-> "none", multi |-> FALSE, failed |-> o \in FailOutcomes, outcome |-> o, backed |-> b, filtered |-> FALSE,
                   saveas |-> "none", elems |-> <<>>]
 LineSet  == {<<>>} \cup {<<a>> : a \in Atoms}
 RECURSIVE SeqsUpTo(_, _)
@@ -104,15 +110,24 @@ Contents == {q \in SeqsUpTo(LineSet, MaxLines) : Len(q) >= MinLines}
 CmdOf(k, c, j)  == IF k \in CmdKinds \cup {"cfile"} THEN "cmd-" \o ToString(c) \o "-" \o ToString(j) ELSE ""
 ArgsOf(k, c, j, multi) ==
     IF k = "ccmd" THEN [shape |-> "seq", v |-> <<"img", "podman", "k" \o ToString(j)>>]
-    ELSE IF k = "command" /\ multi THEN [shape |-> "str", v |-> <<"a" \o ToString(j)>>]
+    ELSE IF k = "command" /\ multi THEN        \* per-item arguments, some of them falsy: "" and ()
+        (CASE j = 1 -> [shape |-> "str", v |-> <<"">>]
+           [] j = 3 -> [shape |-> "seq", v |-> <<>>]
+           [] OTHER -> [shape |-> "str", v |-> <<"a" \o ToString(j)>>])
     ELSE NoArgs
 
 SaveAsOf(k) == IF k \in {"cfile", "ccmd"} THEN {"none"} ELSE SaveAsSet
 EntrySpace(c) ==
-    { [kind |-> k, multi |-> FALSE, failed |-> FALSE, outcome |-> "ok", backed |-> b, saveas |-> sa,
+    (IF TRUE \in FilterSet THEN
+       { [kind |-> k, multi |-> TRUE, failed |-> FALSE, outcome |-> "ok", backed |-> TRUE, filtered |-> TRUE, saveas |-> "none",
+          elems |-> [j \in 1..Len(lss) |-> Elem(lss[j], CmdOf(k, c, j), ArgsOf(k, c, j, TRUE))]]
+           : k \in Kinds \cap {"command", "ccmd", "cfile", "datasource"},
+             lss \in (SeqsUpTo({q \in SeqsUpTo(LineSet \ {<<>>}, Budget) : q # <<>>}, MaxElems) \ {<<>>}) }
+     ELSE {}) \cup
+    { [kind |-> k, multi |-> FALSE, failed |-> FALSE, outcome |-> "ok", backed |-> b, filtered |-> FALSE, saveas |-> sa,
        elems |-> <<Elem(ls, CmdOf(k, c, 1), ArgsOf(k, c, 1, FALSE))>>]
         : k \in Kinds, sa \in SaveAsSet, ls \in Contents, b \in BackedSet } \cup
-    { [kind |-> k, multi |-> TRUE, failed |-> FALSE, outcome |-> "ok", backed |-> b, saveas |-> sa,
+    { [kind |-> k, multi |-> TRUE, failed |-> FALSE, outcome |-> "ok", backed |-> b, filtered |-> FALSE, saveas |-> sa,
        elems |-> [j \in 1..Len(lss) |-> Elem(lss[j], CmdOf(k, c, j), ArgsOf(k, c, j, TRUE))]]
         : k \in Kinds, sa \in SaveAsSet \ {"file"}, lss \in (SeqsUpTo(Contents, MaxElems) \ {<<>>}), b \in BackedSet } \cup
     (IF MayFail THEN {NoValue(o, b) : o \in OutcomeSet, b \in BackedSet} ELSE {})
@@ -143,7 +158,7 @@ NoFlight == [c |-> 0, todo |-> {}, fin |-> <<>>]
 Absent == [present |-> FALSE, multi |-> FALSE, elems |-> <<>>]
 
 -----------------------------------------------------------------------------
-NoEntry == [kind |-> "none", multi |-> FALSE, failed |-> FALSE, outcome |-> "ok", backed |-> FALSE, saveas |-> "none",
+NoEntry == [kind |-> "none", multi |-> FALSE, failed |-> FALSE, outcome |-> "ok", backed |-> FALSE, filtered |-> FALSE, saveas |-> "none",
             elems |-> <<>>]
 
 (* Is the failure of e on record under the key that is persisted?  dr files every other exception under the     *)
@@ -205,7 +220,7 @@ RelsOf(c) == {meta[c].res[j].rel : j \in DOMAIN meta[c].res}
 
 Damage(c, m, mt) ==
     CASE m = "deleted"   -> [mt EXCEPT ![c] = NoDoc]
-      [] m \in {"truncated", "nonjson"} -> [mt EXCEPT ![c].readable = FALSE]
+      [] m \in {"truncated", "nonjson", "unopenable"} -> [mt EXCEPT ![c].readable = FALSE]
       [] m = "unknown"   -> [mt EXCEPT ![c].name = 0]
       [] m = "shape"     -> [mt EXCEPT ![c].shape = FALSE]
       [] OTHER           -> mt
@@ -231,12 +246,19 @@ Loadable(c) ==
     /\ d.present /\ d.readable /\ d.shape /\ d.name \in Comp /\ d.hasres
     /\ \A j \in DOMAIN d.res : \E x \in data : x.rel = d.res[j].rel
 
+(* load-time filtering of a filterable spec: the last `n` matching lines are kept (all lines match here) *)
+LastN(q, n) == IF Len(q) <= n THEN q ELSE SubSeq(q, Len(q) - n + 1, Len(q))
+RECURSIVE UsedBefore(_, _)
+UsedBefore(d, j) == IF j <= 1 THEN 0 ELSE UsedBefore(d, j - 1) + Len(Lines(FileAt(d.res[j - 1].rel)))
+Left(d, j) == IF BudgetMode = "per-load" THEN Budget
+              ELSE IF UsedBefore(d, j) >= Budget THEN 0 ELSE Budget - UsedBefore(d, j)
 Build(c) ==
     LET d == meta[c] IN
     [present |-> TRUE, multi |-> d.multi,
      elems |-> [j \in DOMAIN d.res |->
-                  [lines |-> Lines(FileAt(d.res[j].rel)), cmd |-> d.res[j].cmd, args |-> d.res[j].args,
-                   rel |-> d.res[j].rel]]]
+                  [lines |-> IF entries[c].filtered THEN LastN(Lines(FileAt(d.res[j].rel)), Left(d, j))
+                             ELSE Lines(FileAt(d.res[j].rel)),
+                   cmd |-> d.res[j].cmd, args |-> d.res[j].args, rel |-> d.res[j].rel]]]
 
 (* one iteration of the loop in Hydration.hydrate, in its own try/except    *)
 HydrateEntry(c) ==
